@@ -498,6 +498,7 @@ def run(ctx):
         rej2 = ctx.validate_traces("Trace_Packer.tla", "Trace_Packer.cfg", bad, expect_reject=True)
         if len(rej2) != len(bad):
             raise Machinery("binding self-test: %d corrupted traces but %d rejected" % (len(bad), len(rej2)))
+    ctx.replayed = ne + nb
     ctx.notes["replayed_graph_nodes"] = nn
     ctx.notes["replayed_graph_edges"] = ne
     ctx.notes["replayed_simulated_behaviours"] = nb
